@@ -4,3 +4,5 @@ import RB.Model.Stats
 import RB.Proofs.C15
 import RB.Model.Builds
 import RB.Proofs.C13
+import RB.Model.ConfigDoc
+import RB.Proofs.C19
